@@ -90,6 +90,37 @@ func generate(w *mon.W) {
 	}
 }
 
+// DirectedPipelines returns n pipelines of the directed join families, for
+// checks that judge any successful compilation.
+func DirectedPipelines(seed int64, n int) []*Pipe {
+	rng := gen.RNG(seed, "c03-directed")
+	var out []*Pipe
+	for i := 0; len(out) < n; i++ {
+		j := i / 9
+		switch i % 9 {
+		case 0:
+			out = append(out, twinJoins(rng))
+		case 1:
+			out = append(out, summarizeThenNestedJoin(rng))
+		case 2:
+			out = append(out, distinctThenDuplicates(rng))
+		case 3:
+			out = append(out, namedThenNarrowed(rng))
+		case 4:
+			out = append(out, manyConditions(rng, 1+j%20))
+		case 5:
+			out = append(out, pairedConditions(rng, j%6))
+		case 6:
+			out = append(out, oneSidedConditions(rng, j%30))
+		case 7:
+			out = append(out, orientedComparison(rng, j%24))
+		default:
+			out = append(out, joinThenNarrowedCount(rng, j%8))
+		}
+	}
+	return out
+}
+
 // twinJoins: two joins whose right-hand pipelines are identical except for one
 // function name, literal or comparison operator (same aliases, same shape).
 func twinJoins(rng interface{ Intn(int) int }) *Pipe {
@@ -385,6 +416,10 @@ func summarizeThenNestedJoin(rng interface{ Intn(int) int }) *Pipe {
 		rightPipe = &Pipe{Table: Ident{Name: "U"}, Ops: []*Op{{K: "project", Cols: []Col{{Name: &Ident{Name: "j"}}, {Name: &Ident{Name: "k"}}}}, inner}}
 	}
 	outer := &Op{K: "join", Kind: kinds[rng.Intn(5)], Right: rightPipe, Conds: []*E{Bin("==", Name("$left", "k"), Name("$right", "vk"))}}
+	if rng.Intn(3) == 0 {
+		// the grouping column itself as a bare key, against a plain table
+		outer = &Op{K: "join", Kind: kinds[rng.Intn(5)], Right: &Pipe{Table: Ident{Name: "V"}}, Conds: []*E{Name("k")}}
+	}
 	p.Ops = append(p.Ops, outer)
 	if rng.Intn(2) == 0 {
 		p.Ops = append(p.Ops, &Op{K: "count"})
